@@ -243,6 +243,31 @@ theorem hinv_set_fields (h : Heap) (fam : List HMsg) (i : Nat) (m m' : HMsg) (hi
     rw [ej] at harr hcap ⊢; rw [ek] at harr ⊢
     exact hinv.own j k mj0 mk0 hj0 hk0 hjk harr hcap
 
+/-- resetting member `i` to the nil slice (and any fields) keeps the invariant -/
+theorem hinv_set_nil (h : Heap) (fam : List HMsg) (i : Nat) (m m' : HMsg) (hinv : HInv h fam)
+    (hi : fam[i]? = some m) (hsl : m'.sl = {}) : HInv h (fam.set i m') := by
+  have hlt : i < fam.length := by
+    rcases Nat.lt_or_ge i fam.length with h1 | h1
+    · exact h1
+    · rw [List.getElem?_eq_none h1] at hi; cases hi
+  have get : ∀ (j : Nat) (mj : HMsg), (fam.set i m')[j]? = some mj → (j = i ∧ mj = m') ∨ (j ≠ i ∧ fam[j]? = some mj) := by
+    intro j mj hj
+    rw [List.getElem?_set] at hj
+    by_cases hij : i = j
+    · subst hij; simp [hlt] at hj; exact Or.inl ⟨rfl, hj.symm⟩
+    · simp only [hij, if_false] at hj; exact Or.inr ⟨Ne.symm hij, hj⟩
+  refine ⟨?_, ?_⟩
+  · intro j mj hj
+    rcases get j mj hj with ⟨_, e⟩ | ⟨_, e⟩
+    · subst e; rw [hsl]; simp [SliceOK]
+    · exact hinv.ok j mj e
+  · intro j k mj mk hj hk hjk harr hcap
+    rcases get j mj hj with ⟨_, ej⟩ | ⟨hji, ej⟩
+    · subst ej; rw [hsl] at hcap; simp at hcap
+    · rcases get k mk hk with ⟨_, ek⟩ | ⟨hki, ek⟩
+      · subst ek; rw [hsl]; simp
+      · exact hinv.own j k mj mk ej ek hjk harr hcap
+
 /-- a clone (`[:len:len]`) of member `i` joins the family -/
 theorem hinv_push_clone (h : Heap) (fam : List HMsg) (i : Nat) (m c : HMsg) (hinv : HInv h fam)
     (hi : fam[i]? = some m) (hc : c.sl = { arr := m.sl.arr, len := m.sl.len, cap := m.sl.len }) :
@@ -412,6 +437,44 @@ theorem step_sim (extra : Nat → Nat) (st : FamState) (ps : PureState) (op : FO
       | zero => simp [hv]
       | succ k => simp
   cases op with
+  | unmarshal i p =>
+    simp only [FamState.step, PureState.step, FamState.unmarshal, PureState.modify]
+    have hsi := hs.fam i
+    cases hm : st.fam[i]? with
+    | none => rw [hm] at hsi; simp only [Option.map_none] at hsi; simp only [← hsi]; exact ⟨hinv, hs⟩
+    | some m =>
+      rw [hm] at hsi; simp only [Option.map_some] at hsi
+      simp only [← hsi]
+      have hlt : i < st.fam.length := by
+        rcases Nat.lt_or_ge i st.fam.length with h1 | h1
+        · exact h1
+        · rw [List.getElem?_eq_none h1] at hm; cases hm
+      -- first the reset, then the appends
+      let r := (Message.unmarshalText p).1
+      let m0 : HMsg := { sl := {}, id := r.id, typ := r.typ, retry := r.retry }
+      have h0 := hinv_set_nil st.heap st.fam i m m0 hinv hm rfl
+      have hi0 : (st.fam.set i m0)[i]? = some m0 := getElem?_set_self' st.fam i m0 m hm
+      obtain ⟨a1, a2, a3⟩ := append_all extra r.chunks st.heap (st.fam.set i m0) i m0 h0 hi0
+      refine ⟨by simpa [List.set_set] using a1, ⟨?_, hs.ctr, hs.puts⟩⟩
+      intro j
+      simp only [List.getElem?_set]
+      by_cases hij : i = j
+      · subst hij
+        simp only [if_true, hlt, ← hlen, Option.map_some]
+        congr 1
+        apply message_ext
+        · rw [a2]; simp [view, m0, r]
+        · rfl
+        · rfl
+        · rfl
+      · simp only [hij, if_false]
+        rw [← hs.fam j]
+        cases hj : st.fam[j]? with
+        | none => rfl
+        | some mj =>
+          simp only [Option.map_some]
+          have hj0 : (st.fam.set i m0)[j]? = some mj := by rw [List.getElem?_set]; simp [hij, hj]
+          rw [a3 j mj (Ne.symm hij) hj0]
   | appendData i s => exact appendCase i false s
   | appendComment i s => exact appendCase i true s
   | setID i v => exact modifyCase i _ _ (fun _ => rfl) (fun _ _ => rfl)
